@@ -15,6 +15,20 @@ CLAIMED = {
         ref="DESIGN.md §6 C03",
         technique="Lean 4 proof (omega/structural) + exhaustive differential correspondence",
     ),
+    "C04": dict(
+        text="Lean 4 theorems over the state machine of connection operations (conns of every instance in dict order, _connected_ports of "
+        "every connectable, Refs.all/portrefs/connrefs) for every finite history of connect (call / assignment / connect()), replace, "
+        "disconnect and reference creation: back-references are exactly the inverse of conns (invariant), conns is the finite map the "
+        "history denotes (refinement; last write wins, disconnect erases), histories with equal final maps leave equal back-reference "
+        "sets (no trace), the graph group discovery walks is the symmetric closure of the final map, set.remove never raises, references "
+        "only grow. Tied to the code by random histories over generated designs with the full state compared after every operation, and "
+        "by the package of the history-built design compared with Sem.src of the final map and with the package of the design built directly.",
+        note="Model hand-written after hdl21/instance.py (connect/replace/disconnect/_get_portref/_get_connref/_to_array). What the passes make "
+        "of that state is not a theorem: it is decided on the implementation per history (Sem.pkg = Sem.src in Lean; name-free package "
+        "equality with the direct build). Dead references to ports that do not exist are outside the alphabet.",
+        ref="DESIGN.md §6 C04",
+        technique="Lean 4 proof (invariant by induction over operation histories, refinement to a finite map) + differential correspondence of op traces and packages",
+    ),
     "C14": dict(
         text="Lean 4 theorems (Mathlib ℚ) over the model of hdl21/prefix.py: add/sub/mul/neg/abs/scale return exactly the "
         "rational result for every mantissa, exponent and prefix pair; comparisons are total, satisfy trichotomy and the usual "
